@@ -142,18 +142,31 @@ def pick_iters(r, want_exact):
     return it
 
 
-def run_calls(obj, calls_fp, count_sweeps=False):
-    """calls_fp: list of (iters, float potentials).  Returns [(tables, sweeps or None, pf)]"""
+def run_calls(obj, calls_fp, count_sweeps=False, with_callback=False):
+    """calls_fp: list of (iters, float potentials[, identity of the potential vector]).  Returns [(tables, sweeps or None, pf)].
+    Consecutive calls on the same potential vector hand the oracle the SAME CliqueVector object (as LocalInference does on a
+    restart and in its feasibility phase): an oracle that writes into the caller's potentials then answers the later call wrongly."""
     out = []
-    for iters, fp in calls_fp:
+    last_key, cv = None, None
+    for call in calls_fp:
+        iters, fp = call[0], call[1]
+        key = call[2] if len(call) > 2 else None
         obj.iters = iters
         cnt = [0]
-        cb = (lambda m: cnt.__setitem__(0, cnt[0] + 1)) if count_sweeps else None
+        cb = (lambda m: cnt.__setitem__(0, cnt[0] + 1)) if (count_sweeps or with_callback) else None
+        if key is None or key != last_key or cv is None:
+            cv = rggen.impl_cv(fp)
+        else:
+            REUSED[0] += 1
+        last_key = key
         with np.errstate(all='ignore'):
-            mu = obj.belief_propagation(rggen.impl_cv(fp), callback=cb)
+            mu = obj.belief_propagation(cv, callback=cb)
             pf = float(obj.primal_feasibility(mu))
         out.append((rggen.table(mu), cnt[0] if count_sweeps else None, pf))
     return out
+
+
+REUSED = [0]
 
 
 def make_case(r, op, max_cells, scale=None):
@@ -228,7 +241,7 @@ def request_of(c):
 def canon_of(c):
     return {'stream': 'oracle', 'op': c['op'], 'dom': c['dom'], 'cliques': c['cl'], 'total': c['total'], 'support': c['support'],
             'damping': getattr(c['obj'], 'damping', None),
-            'minimal': getattr(c['obj'], 'minimal', None), 'scale': c['scale'],
+            'minimal': getattr(c['obj'], 'minimal', None), 'scale': c['scale'], 'with_callback': c.get('with_callback', False),
             'calls': [{'iters': k, 'pots': gmgen.enc_pots(p)} for k, p, _ in c['calls']]}
 
 
@@ -322,7 +335,11 @@ def oracle_stream(res, drv, tier, seed, viol):
     for i in range(1 if tier == 'quick' else 6):
         cases.append(stress_case(r, 'gbp' if i % 3 != 2 else 'hps'))
     cases.append(pinned_hps_case(r))
-    impls = [run_calls(c['obj'], [(k, fp) for k, _, fp in c['calls']], count_sweeps=(c['op'] == 'hps')) for c in cases]
+    for i, c in enumerate(cases):
+        c['with_callback'] = (i % 2 == 1)
+    impls = [run_calls(c['obj'], [(k, fp, id(p)) for k, p, fp in c['calls']], count_sweeps=(c['op'] == 'hps'), with_callback=c['with_callback'])
+             for c in cases]
+    res.extra['calls_reusing_the_callers_potential_object'] = REUSED[0]
     resps = drv.run([request_of(c) for c in cases], timeout=3000) if drv else [None] * len(cases)
     for c, impl, resp in zip(cases, impls, resps):
         check_case(res, c, impl, resp, viol)
@@ -370,6 +387,6 @@ def replay(res, drv, rp):
         calls.append((e['iters'], pots, rggen.pots_float(pots, q.get('scale'))))
     c = dict(dom=dom, cl=cl, kind='replay', total=total, obj=obj, keys=None, structure=structure, rip=rggen.has_rip(cl),
              diam=rggen.factor_graph_diameter(dom, cl), support=q.get('support', 'all'), calls=calls, op=op, scale=q.get('scale'))
-    impl = run_calls(obj, [(k, fp) for k, _, fp in calls], count_sweeps=(op == 'hps'))
+    impl = run_calls(obj, [(k, fp, repr(p)) for k, p, fp in calls], count_sweeps=(op == 'hps'), with_callback=q.get('with_callback', False))
     resp = drv.one(request_of(c)) if drv else None
     check_case(res, c, impl, resp, viol)
